@@ -55,6 +55,12 @@ const ASI = [
   'function f(a, b) { return class extends (a + b) { static async *[a + b]() { yield* [await a + b] } } }'
 ]
 
+function usesAwaitAsIdentifier (code) {
+  let found = false
+  try { A.walk(A.parse(code, { module: false }), n => { if (n.type === 'Identifier' && n.name === 'await') found = true }) } catch (e) {}
+  return found
+}
+
 async function check (job, resp, reparse) {
   const violations = []
   const k = kind(resp)
@@ -78,7 +84,12 @@ async function check (job, resp, reparse) {
   if (reparse) {
     const rk = kind(reparse)
     out.reparse = rk
-    if (rk === 'err' && !/Variable name duplicated/.test(reparse.err)) push('own-parser-rejects-output', "the rewriter's own parser rejects the output: " + clip(reparse.err, 300))
+    if (rk === 'err' && !/Variable name duplicated/.test(reparse.err)) {
+      // D33 (known finding, swc's parser): in a script `await` may be an identifier; swc accepts `await\n+ x` but rejects the same
+      // expression printed on one line. The signature names that situation so that any other rejection stays a violation.
+      const awaitIdent = /await isn't allowed in non-async function/.test(reparse.err) && inputKind === 'script' && usesAwaitAsIdentifier(job.code)
+      push('own-parser-rejects-output' + (awaitIdent ? ':await-as-identifier' : ''), "the rewriter's own parser rejects the output: " + clip(reparse.err, 300))
+    }
     if (rk === 'panic' || rk === 'abort') push('own-parser-crashes-on-output', JSON.stringify(reparse).slice(0, 300))
   }
   return { out, violations }
